@@ -1692,8 +1692,66 @@ def fam_read_during_write(rname, wname):
         'generations, totals and amounts symbolic'))
 
 
+def fam_write_race(name, mk):
+    """Two writes that carry no common guard (one of them has no generation
+    to carry), every interleaving: what is stored afterwards equals applying
+    the requests answered with success one after the other in some order, in
+    which each of them succeeds - "the result of applying, in order,
+    precisely the requests answered with success"."""
+    from checks import conc
+
+    def path(ctx):
+        app.setup()
+        reqs = mk()
+        pre, results, final, sched, _w = conc.run_concurrent(
+            ctx, _race_world, reqs)
+        for i, r in enumerate(results):
+            if r.status >= 500:
+                runner.violation(ctx, 'no-5xx', '%s: %d' % (
+                    reqs[i].name, r.status), sig=reqs[i].name)
+        conc.check_serializable(ctx, _race_world, reqs, results, final,
+                                clause='writes-apply-in-some-order')
+        return finish(ctx, ','.join(str(r.status) for r in results))
+    return Family('race/' + name, path, bounds=dict(
+        schedules='every interleaving at transaction granularity',
+        state='as race/get_*'))
+
+
+def _write_races():
+    from checks.conc import Req
+    from engine.scenario import U, CONS
+    _r, writes, _ = _race_reqs()
+
+    def delete_alloc():
+        return Req('delete_alloc', lambda ctx, w: app.call(
+            'DELETE', '/allocations/' + CONS(1), version='1.39'))
+
+    def delete_inventory():
+        return Req('delete_inventory', lambda ctx, w: app.call(
+            'DELETE', '/resource_providers/%s/inventories/VCPU' % U(1),
+            version='1.39'))
+
+    def delete_traits():
+        return Req('delete_traits', lambda ctx, w: app.call(
+            'DELETE', '/resource_providers/%s/traits' % U(1),
+            version='1.39'))
+    return [
+        ('delete_alloc+put_alloc_existing',
+         lambda: [delete_alloc(), writes['put_alloc_existing']()]),
+        ('delete_alloc+put_alloc(other consumer)',
+         lambda: [delete_alloc(), writes['put_alloc']()]),
+        ('delete_alloc+delete_alloc',
+         lambda: [delete_alloc(), delete_alloc()]),
+        ('delete_inventory+put_alloc',
+         lambda: [delete_inventory(), writes['put_alloc']()]),
+        ('delete_traits+put_traits',
+         lambda: [delete_traits(), writes['put_traits']()]),
+    ]
+
+
 def families(tier):
     fams = [fam_read(n) for n in READS] + [fam_write(n) for n in WRITES]
+    fams += [fam_write_race(n, mk) for n, mk in _write_races()]
     _r, writes, reads = _race_reqs()
     pairs = [('provider-usages', 'put_alloc'),
              ('provider-inventories', 'put_inventories'),
